@@ -191,6 +191,13 @@ def crash_finding(exc, muts, rebuilt):
     if any(m['t'] == 'RenameModel' for m in muts) and type(exc).__name__ in (
             'DatabaseStateError', 'MissingSignatureError', 'EvolutionBaselineMissingError', 'OperationalError'):
         return F_RENAME_STATE, msg
+    if isinstance(exc, AssertionError):
+        # ... and the unique index of a column of a table renamed earlier in the run is looked up under the new
+        # table name, which the bookkeeping does not know yet (same finding)
+        renamed_to = set(m['new'] for m in muts if m['t'] == 'RenameModel')
+        if any(m['t'] == 'ChangeField' and m['model'] in renamed_to and
+               any(a in ('unique', 'db_index') for a, _ in m['attrs']) for m in muts):
+            return F_RENAME_STATE, msg
     if any(m['t'] == 'DeleteModel' for m in muts) and type(exc).__name__ in ('MissingSignatureError',
                                                                              'EvolutionBaselineMissingError'):
         return F_DELETED_TARGET, msg
